@@ -79,6 +79,11 @@ def strace_events(ctx, exe):
 def run(ctx):
     exe = vlib.build(ctx)
     vlib.tlc_mc(ctx, 'MC_Process', 'MC_Process' if ctx.quick else 'MC_Process_big', workers=12)
+    # ---- inputs with several offenders of one kind (Plan_Multi.tla), enumerated by TLC and forged onto corpus templates
+    rec, pout = vlib.tlc_mc(ctx, 'Plan_Multi', 'Plan_Multi' if ctx.quick else 'Plan_Multi_big', workers=1)
+    plan = ctx.path('multi.out')
+    open(plan, 'w').write(pout)
+    vlib.GOENV['VERIF_MULTI'] = plan
     # ---- determinism / history independence / read-only: several processes, merged per object
     files = []
     s = None
@@ -121,11 +126,30 @@ def run(ctx):
             vlib.report(ctx, 'syscall:%s' % e['name'], 'while linting the process issued %s (%s) %d times' % (e['name'], e['fdclass'], e['n']), dict(event=e))
         else:
             vlib.report(ctx, 'call:%s:%s' % (e['lint'] or 'framework', e['callee']), 'code reachable from %s calls %s' % (e['lint'] or 'Lint*Ex', e['where']), dict(event=e))
+    # ---- the KeyUsage rule family: status must not vary between repetitions (gating, C05); the verdict itself is a fidelity oracle
+    dk = vlib.drive(ctx, exe, 'kueku')
+    krej, klines = vlib.tlc_trace(ctx, 'Trace_KeyUsage', os.path.join(dk, 'kueku.ndjson'), shards=4)
+    nfid = 0
+    for (ln, payload) in krej:
+        e = json.loads(klines[ln - 1])
+        for why in payload[0]:
+            if why.startswith('fid-'):
+                nfid += 1
+                if nfid <= 3:
+                    ctx.drift.append('KeyUsage rule: ku=%s ekus=%s status=%s: %s' % (e['ku'], e['ekus'], e['st'], why))
+            elif why == 'harness-planting-failed':
+                ctx.notes.append('planting failed: %s' % json.dumps(e)[:200])
+            else:
+                vlib.report(ctx, 'e_key_usage_and_extended_key_usage_inconsistent:status-unstable',
+                            'e_key_usage_and_extended_key_usage_inconsistent: %s: key usage bits %s with purposes %s on %s gave statuses %s in 12 back-to-back runs' % (
+                                why, e['ku'], e['ekus'], e['tpl'], e['st']), dict(kind='kueku', ku=e['ku'], ekus=e['ekus'], tpl=e['tpl']))
+    if nfid > 3:
+        ctx.drift.append('KeyUsage rule: %d planted combinations in all differ from KeyUsage!Consistent' % nfid)
     cov = dict(evaluations=s['lint_calls'] * nproc + sum(e.get('n', 1) for e in evs), distinct_nontrivial=s['pairs_with_details'],
                rule='evaluation = one Lint*Ex call compared with the memo (3+ passes in different orders, 6+ back-to-back repetitions, %d processes) or one observed syscall / reachable call; '
                     'non-trivial = distinct (object, lint) pairs whose result carries details' % nproc,
                samples=[s['sample'], evs[0]], objects=s['objects'], snapshots=s['snapshots'] * nproc, syscall_kinds=len([e for e in evs if e['ev'] == 'Sys']),
-               static_calls=len([e for e in evs if e['ev'] == 'Call']), lints_with_map_range=sum(1 for r in ex['registrations'] if r['map_range_sites']),
+               static_calls=len([e for e in evs if e['ev'] == 'Call']), keyusage_combinations=len(klines), lints_with_map_range=sum(1 for r in ex['registrations'] if r['map_range_sites']),
                trusted_base=['strace', 'golang.org/x/tools ssa', 'reflect'])
     return vlib.finish(ctx, 'model_checking', cov, ASSUME)
 
